@@ -1,6 +1,7 @@
 import OpdaProofs.Audit
 import OpdaProofs.Emp
 import OpdaProofs.ExtInst
+import OpdaProofs.EmpMore
 /-!
 # C03 — EmpiricalDistribution pmf/cdf/ppf are the exact weighted step distribution
 
@@ -31,6 +32,42 @@ theorem ppf_galois (a b y : E) (obs : List (E × α)) (hn : NonNeg obs) (htot : 
     (q : α) (hq0 : 0 < q) (hq1 : q ≤ 1) (hay : a ≤ y) :
     ppf a (support ⊥ ⊤ a b obs) q ≤ y ↔ q ≤ cdf (support ⊥ ⊤ a b obs) y :=
   ppf_le_iff a b y obs hn htot q hq0 hq1 hay
+
+/-- cdf is non-decreasing, with values in `[0,1]`. -/
+theorem cdf_monotone (a b : E) (obs : List (E × α)) (hn : NonNeg obs) (htot : 0 < total obs) (y y' : E) (h : y ≤ y') :
+    cdf (support ⊥ ⊤ a b obs) y ≤ cdf (support ⊥ ⊤ a b obs) y' := cdf_mono a b obs hn htot y y' h
+
+theorem cdf_in_unit_interval (a b : E) (obs : List (E × α)) (hn : NonNeg obs) (htot : 0 < total obs) (y : E) :
+    0 ≤ cdf (support ⊥ ⊤ a b obs) y ∧ cdf (support ⊥ ⊤ a b obs) y ≤ 1 := cdf_range a b obs hn htot y
+
+/-- cdf is 0 below the sample and 1 from its maximum on. -/
+theorem cdf_zero_below (a b : E) (obs : List (E × α)) (y : E) (h : ∀ p ∈ obs, y < p.1) :
+    cdf (support ⊥ ⊤ a b obs) y = 0 := cdf_eq_zero_of_all_gt a b obs y h
+
+theorem cdf_one_from_max (a b : E) (obs : List (E × α)) (htot : 0 < total obs) (y : E) (h : ∀ p ∈ obs, p.1 ≤ y) :
+    cdf (support ⊥ ⊤ a b obs) y = 1 := cdf_eq_one_of_all_le a b obs htot y h
+
+/-- ppf never returns a point below the lower bound and is non-decreasing in `q`. -/
+theorem ppf_ge_lower_bound (a : E) (supp : List (E × α)) (q : α) : a ≤ ppf a supp q := le_ppf a supp q
+
+theorem ppf_monotone (a b : E) (obs : List (E × α)) (hn : NonNeg obs) (htot : 0 < total obs)
+    (q q' : α) (hq0 : 0 < q) (hqq : q ≤ q') (hq1 : q' ≤ 1) :
+    ppf a (support ⊥ ⊤ a b obs) q ≤ ppf a (support ⊥ ⊤ a b obs) q' := ppf_mono a b obs hn htot q q' hq0 hqq hq1
+
+/-- ppf(cdf(v)) = v at every atom `v ≥ a` where the cdf jumps (positive weight). -/
+theorem ppf_cdf_at_atom (a b v : E) (obs : List (E × α)) (hn : NonNeg obs) (htot : 0 < total obs) (hav : a ≤ v)
+    (hpos : 0 < cdf (support ⊥ ⊤ a b obs) v)
+    (hjump : ∀ y, y < v → cdf (support ⊥ ⊤ a b obs) y < cdf (support ⊥ ⊤ a b obs) v) :
+    ppf a (support ⊥ ⊤ a b obs) (cdf (support ⊥ ⊤ a b obs) v) = v := ppf_cdf_atom a b v obs hn htot hav hpos hjump
+
+/-- non-vacuity: a tied, weighted sample with a zero weight and an infinite observation meets the hypotheses. -/
+example : NonNeg ([(Ext.fin 1, (1:ℚ)/2), (Ext.fin 1, 1/4), (Ext.posInf, 0), (Ext.fin (-3), 1/4)] : List (Ext × ℚ))
+    ∧ (0:ℚ) < total ([(Ext.fin 1, (1:ℚ)/2), (Ext.fin 1, 1/4), (Ext.posInf, 0), (Ext.fin (-3), 1/4)] : List (Ext × ℚ)) := by
+  constructor
+  · intro p hp
+    simp only [List.mem_cons, List.not_mem_nil, or_false] at hp
+    rcases hp with rfl | rfl | rfl | rfl <;> norm_num
+  · norm_num [total]
 
 /-! ### the same statements about the terms the driver evaluates -/
 
